@@ -55,31 +55,33 @@ def records(W, p):
     DT = 600
     tmp = W.scratch()
     xs = [W.real("xa", 6, 14), W.real("xb", 6, 14)]
-    r1 = W.idx(W.int("release_step_b", 0, 1))
+    r1 = W.idx(W.int("release_step_b", 0, N - 2))  # the second release may come after the first particle has died
+    P = W.idx(W.int("period", 1, 2))  # with a record every second step a dead particle stays in the state for a while
     W.table(tmp / "r.rls", ["release_time", "X", "Y", "Z"], [[W.dt(T0), xs[0], 10, 5], [W.dt(T0 + r1 * DT), xs[1], 8, 5]])
     cfg = base_config(W, start=T0, stop=T0 + N * DT, dt=DT, release_file=tmp / "r.rls", u=W.frac(1, 2), advection=p["adv"],
-                      output=dict(filename=str(tmp / "out.nc"), output_period=DT, layout=layout, instance_variables=dict(pid=ovar("i4"), X=ovar("f8"))))
+                      output=dict(filename=str(tmp / "out.nc"), output_period=P * DT, layout=layout, instance_variables=dict(pid=ovar("i4"), X=ovar("f8"))))
     cfg["forcing"]["filename"] = str(tmp / "unused.nc")
     run_main(W, cfg)
     rel = [0, r1]
     # record s holds particle n iff it is released and every position so far was inside: x + 3 (s - rel) < 19.5
     exp = []
-    for s_ in range(N):
+    for s_ in range(0, N, P):
         row = {}
         for n in range(2):
             if s_ >= rel[n] and W.truth(W.lt(xs[n] + 3 * (s_ - rel[n]), W.frac(39, 2))):
                 row[n] = xs[n] + 3 * (s_ - rel[n])
         exp.append(row)
     f = W.nc_read(tmp / "out.nc")
-    info = dict(layout=layout, adv=p["adv"], expected_members=[sorted(r) for r in exp])
+    info = dict(layout=layout, adv=p["adv"], period=P, release_step_b=r1, expected_members=[sorted(r) for r in exp])
     conds = []
     ok = True
     if layout == "sparse":
         pc = f["vars"]["particle_count"]
-        ok = len(pc) == N and not any(W.is_fill(c) for c in pc)
+        NR = len(exp)
+        ok = len(pc) == NR and not any(W.is_fill(c) for c in pc)
         off = 0
         got = []
-        for s_ in range(N if ok else 0):
+        for s_ in range(NR if ok else 0):
             c = int(pc[s_])
             pid = [int(q_) for q_ in f["vars"]["pid"][off:off + c]]
             got.append(pid)
@@ -91,8 +93,8 @@ def records(W, p):
         info["got_members"] = got
     else:
         X = f["vars"]["X"]
-        ok = len(X) == N
-        for s_ in range(N if ok else 0):
+        ok = len(X) == len(exp)
+        for s_ in range(len(exp) if ok else 0):
             for n in range(len(X[s_])):
                 if n in exp[s_]:
                     ok = ok and not W.is_fill(X[s_][n])
